@@ -6,7 +6,7 @@ _c07 = _load('C07'); _c20 = _load('C20')
 META = {
  'functions': ['JSON::JSONParser::Parse / parseValue / parseObject / parseArray (JSON.hpp:61-289): each production functionally (accepts exactly the production, builds the members in order with their keys, ends at the end of the match)',
                'JSONUtils::UnEscape + Unicode::ToUTF + Digit::HexStringToNumber (string decoding: every \\uXXXX / surrogate pair, UTF-8/16/32)'],
- 'bounds': 'compositional: (a) strings: every \\u escape and surrogate pair with neighbours (finite domain, complete) - the C20 un-escape queries; (b) numbers: delegated to C09; '
+ 'bounds': 'compositional: (a) strings: every \\u escape and surrogate pair with neighbours (finite domain, complete) - the C20 un-escape queries; (b) numbers: delegated to C09, whose long-numeral window queries (19/20/21-digit integer parts, alone and followed by . e E) are also run here; '
            '(c) structure: every production over fully symbolic exact-size buffers of every length L <= N (N = 4 quick, 6 thorough), callees under logging contracts '
            '(whitespace of all four kinds at every legal position, member order, key length/first unit, scalar kinds and payload pass-through); by induction every nesting depth for buffers up to N',
  'outside': 'buffers longer than N in the structure queries; duplicate-key replacement (last value wins at the first position) is a property of the real HArray and is checked there (C13) - '
@@ -19,4 +19,9 @@ def queries(tier):
     for q in _c20.queries(tier):
         if q.name.startswith('unescape/'):
             q.name = 'string/' + q.name; qs.append(q)
+    # (b) numbers are C09's subject; the long-numeral windows of its scanner (19/20/21 digits at the 2^63 / 2^64 boundaries, alone and followed by . e E)
+    # are run here too, because their look-ahead decides whether a valid numeral is consumed entirely, i.e. whether the DOCUMENT is accepted
+    for q in _load('C09').queries(tier):
+        if (q.name.startswith('int/') or q.name.startswith('inttail/')) and not q.kf_only:
+            q.name = 'number-window/' + q.name; qs.append(q)
     return qs
